@@ -27,11 +27,13 @@ pub struct Schedule {
     pub chunks: Vec<usize>,
     /// 1-based numbers of the fill_buf/read calls that report `Interrupted` first
     pub interrupts: Vec<u64>,
+    /// a run of consecutive calls (first call number, length) that all report `Interrupted`
+    pub burst: Option<(u64, u64)>,
 }
 
 impl Schedule {
     pub fn fixed(n: usize) -> Self {
-        Self { chunks: vec![n.max(1)], interrupts: vec![] }
+        Self { chunks: vec![n.max(1)], interrupts: vec![], burst: None }
     }
 }
 
@@ -73,7 +75,7 @@ impl<'a> Scripted<'a> {
     }
     fn window(&mut self) -> io::Result<(usize, usize)> {
         self.calls += 1;
-        if self.sched.interrupts.contains(&self.calls) {
+        if self.sched.interrupts.contains(&self.calls) || self.sched.burst.map_or(false, |(a, n)| self.calls >= a && self.calls < a + n) {
             return Err(io::Error::new(ErrorKind::Interrupted, "transient"));
         }
         if self.window_end <= self.pos {
